@@ -186,7 +186,9 @@ class HubRun:
             return [cb.frame({"Delete": {"path": op["path"], "expected": self._hash(op["exp"]) if op["exp"] else None}})]
         if k == "put":
             data = self.contents[op["c"]]
-            declared = self._hash(op["c"]) if op.get("hashok", True) else self._hash(op["wrong"])
+            declared = self._hash(op["c"])
+            if not op.get("hashok", True):
+                data = data[:-1] + bytes([data[-1] ^ 0x55])      # the streamed bytes do not match the declared hash
             ln = len(data) + op.get("len_delta", 0)
             fr = cb.frame({"Put": {"path": op["path"], "expected": self._hash(op["exp"]) if op["exp"] else None, "len": ln, "hash": declared}})
             body = data if op.get("len_delta", 0) >= 0 else data     # short declared length: the server takes only `len` bytes
